@@ -49,7 +49,7 @@ class ReplyDomain(Domain):
             if self.noreply:
                 return [("ok", Opaque("noreply-result"), state)]
             return [("ok", TupleV((Const(self.reply),)), state)]
-        if isinstance(fval, tuple) and fval and fval[0] == "cmeth" and fval[2] in ("partition", "startswith", "split", "decode", "isdigit", "strip") and all(isinstance(a, Const) for a in args):
+        if isinstance(fval, tuple) and fval and fval[0] == "cmeth" and fval[2] in ("partition", "startswith", "split", "decode", "isdigit", "strip", "find") and all(isinstance(a, Const) for a in args):
             try:
                 v = getattr(fval[1].v, fval[2])(*[a.v for a in args])
             except Exception as e:
@@ -226,6 +226,42 @@ def run(chk):
                 if isnone is False and a != wire.P("noreply"):
                     bad = "an explicit noreply is replaced by %s" % wire.describe(a)
             r4.expect(bad is None and seen > 0, "Client.%s resolves noreply=None to self.default_noreply before building and sending" % mname, "Client.%s:noreply-resolution" % mname, "Client.%s: %s" % (mname, bad or "no wire variant"), fn=f, node=f.node)
+    # ------------------------------------------------------------------ R5 error replies are raised, for every reply line
+    r5 = chk.rule("C05.R5", "error replies: ERROR / CLIENT_ERROR / SERVER_ERROR lines raise the documented exception, and every reply line read by an exchange passes that test before it is interpreted")
+    re_fn = prog.method("Client", "_raise_errors")
+    table = {b"ERROR": "MemcacheUnknownCommandError", b"ERROR extra": "MemcacheUnknownCommandError", b"CLIENT_ERROR bad data chunk": "MemcacheClientError", b"SERVER_ERROR out of memory": "MemcacheServerError", b"STORED": None, b"END": None, b"VALUE k 0 1": None, b"5": None}
+    for line, want in sorted(table.items()):
+        dom = ReplyDomain(prog, re_fn, b"", False, exn)
+        pn = [p.name for p in re_fn.pos_params()]
+        outs = Interp(dom, re_fn.node, prog).run(Env({pn[0]: Const(line), pn[1]: Const(b"cmd")}))
+        rets, excs = outs.of("ret"), outs.of("exc")
+        if want is None:
+            ok = rets and not excs
+            got = "raises %s" % [e.cls for s_, e, t in excs]
+        else:
+            ok = excs and not rets and all(e.cls == want for s_, e, t in excs)
+            got = "returns normally" if rets else "raises %s" % [e.cls for s_, e, t in excs]
+        r5.expect(bool(ok), "_raise_errors(%r) -> %s" % (line, want or "no error"), "Client._raise_errors:%s" % line.decode().split(" ")[0], "for the reply line %r _raise_errors %s; documented: %s" % (line, got, ("raise " + want) if want else "no error"), fn=re_fn, node=re_fn.node)
+    direct, readers = exchange.recv_reaching_functions(prog)
+    for f in exchange.exchange_functions(prog):
+        al = exchange.local_reader_aliases(f, readers) | set(readers)
+        reads = [n for n in walk_no_nested(f.node) if isinstance(n, ast.Assign) and isinstance(n.value, ast.Call) and isinstance(n.value.func, ast.Name) and n.value.func.id in al and isinstance(n.targets[0], ast.Tuple) and len(n.targets[0].elts) == 2 and isinstance(n.targets[0].elts[1], ast.Name)]
+        r5.expect(len(reads) >= 1, "%s reads reply lines" % f.qualname, "%s:no-line-reads" % f.qualname, "no reply line is read in %s" % f.qualname, fn=f)
+        for rd in reads:
+            lv = rd.targets[0].elts[1].id
+            # statements after the read, in the same block (the read sits in a try: go up to the enclosing block)
+            stmt = rd
+            while not isinstance(getattr(stmt, "_parent", None), (ast.For, ast.While, ast.FunctionDef)):
+                stmt = stmt._parent
+            blk = stmt._parent.body
+            after = blk[blk.index(stmt) + 1:]
+            first_use = None
+            for st in after:
+                if any(isinstance(x, ast.Name) and x.id == lv and isinstance(x.ctx, ast.Load) for x in ast.walk(st)):
+                    first_use = st
+                    break
+            ok = isinstance(first_use, ast.Expr) and isinstance(first_use.value, ast.Call) and call_name(first_use.value) == "self._raise_errors" and first_use.value.args and isinstance(first_use.value.args[0], ast.Name) and first_use.value.args[0].id == lv
+            r5.expect(ok, "%s: a line read at line %d goes through _raise_errors first" % (f.qualname, rd.lineno), "%s:line-used-before-error-check" % f.qualname, "in %s the reply line `%s` is first used by `%s` rather than checked by _raise_errors: an ERROR / CLIENT_ERROR / SERVER_ERROR reply would be interpreted as a result" % (f.qualname, lv, node_src(first_use, 60) if first_use is not None else None), fn=f, node=rd)
     # the value that decides whether replies are read is the one that put ` noreply` on the wire (same rule as C01.R2b)
     wire.check_noreply_coupling(prog, r4)
     chk.assume("the server answers with a reply from the verb's alphabet (error lines are handled by _raise_errors before these tables)")
